@@ -5,7 +5,7 @@ import os
 import re
 
 from . import invoker, fakevcs, adapter
-from ref import pattern as rp, pep440, configsyn
+from ref import pattern as rp, pep440, configsyn, legacy
 
 
 _PEP_SLOT = re.compile(r"(\d+)((?:\.\d+)*)(?:\.?(a|b|rc|post|dev)(\d+))?")
@@ -31,14 +31,14 @@ def region_text(region, vtree, state, vtext):
         return vtext
     if region == "{pep440_version}":
         return pep440.canonical(vtext)
-    return rp.render(rp.tokenize(region), state)
+    return rp.render(legacy.tokenize_any(region), state)
 
 
 class World:
     def __init__(self, project):
         self.project = project
         self.vpattern = project["version_pattern"]
-        self.vtree = rp.tokenize(self.vpattern)
+        self.vtree = legacy.tokenize_any(self.vpattern)
         self.syntax = project["syntax"]
         self.files = {}      # path -> list of {"segs", "end"}
         self.configured = []
@@ -68,11 +68,14 @@ class World:
         """Starting content of a {pep440_version} slot: what bumpver itself accepts (see adapter)."""
         if vtext not in self.pep_cache:
             try:
+                if legacy.is_legacy(self.vpattern):
+                    raise ValueError("legacy")
                 self.pep_cache[vtext] = adapter.pep440_slot_text(vtext, self.vpattern)
             except invoker.HarnessError:
                 raise
             except Exception:
-                self.pep_cache[vtext] = pep440.canonical(vtext)
+                # legacy patterns: the short tag directly follows the number ("2017.2dev0"), cf. README legacy section
+                self.pep_cache[vtext] = pep440.canonical(vtext).replace(".dev", "dev").replace(".post", "post")
         return self.pep_cache[vtext]
 
     def expected_text(self, path, state, vtext, initial=False):
